@@ -100,21 +100,11 @@ theorem normalize_form (c : PBC) (hop : c.op ≠ .ne) :
   obtain ⟨ts, o, v⟩ := c
   cases o <;> simp [PB.normalize] at hop ⊢ <;> exact fun a b hab => normTerms_nonneg _ _ (a, b) hab
 
-/-- T-C04.4c "leaves only positive coefficients": true whenever no input coefficient is
-zero; a zero coefficient survives as zero (finding D27, see `normalize_zero_survives`) -/
-theorem normalize_pos_partial (c : PBC) (hz : ∀ t ∈ c.terms, t.1 ≠ 0) :
-    ∀ t ∈ (PB.normalize c).terms, 0 < t.1 := by
+/-- T-C04.4c "leaves only positive coefficients": every coefficient of the normal form is
+strictly positive (terms with coefficient zero are dropped — since the repair of D27) -/
+theorem normalize_pos (c : PBC) : ∀ t ∈ (PB.normalize c).terms, 0 < t.1 := by
   obtain ⟨ts, o, v⟩ := c
-  have hm : ∀ t ∈ ts.map (fun t => (-t.1, t.2)), t.1 ≠ 0 := by
-    intro t ht; simp only [List.mem_map] at ht; obtain ⟨t', ht', rfl⟩ := ht
-    have := hz t' ht'; simp; exact this
-  cases o <;> simp only [PB.normalize] <;> first
-    | exact normTerms_pos _ _ hm
-    | exact normTerms_pos _ _ hz
-
-/-- the excluded region of `normalize_pos_partial` is real: coefficient 0 is kept -/
-theorem normalize_zero_survives :
-    (PB.normalize ⟨[(0, 1), (2, -3)], .ge, 1⟩).terms = [(0, 1), (2, -3)] := by decide
+  cases o <;> simp only [PB.normalize] <;> exact normTerms_pos _ _
 
 /-- T-C04.5 the OPB cardinality builders constrain to the same arithmetic -/
 theorem opb_linear_holds (α : Assign) (ls : List Int) (o : Op) (k : Int) (h : NonZero ls) :
